@@ -686,7 +686,9 @@ pub fn gen(prop: &str, tier: &str, seed: u64) -> Out {
                     if prop == "C15" {
                         o.push(format!("modes {} {}", d, ph));
                         let pre = gen_prefix(&mut r, &c);
-                        o.push(format!("select {} {} {} {}", r.pick(&["first", "array", "all", "mixed"]), pre, d, ph));
+                        let m = *r.pick(&["first", "array", "all", "mixed"]);
+                        o.push(format!("select {} {} {} {}", m, pre, d, ph));
+                        o.push(format!("spec:select {} {} {} {}", m, pre, d, ph));
                         continue;
                     }
                     let pre = gen_prefix(&mut r, &c);
